@@ -122,9 +122,11 @@ class FormulaManager(object):
             count = count + 1
 
         name = (base % count)
-        self._fresh_guess = count + 1
         v = self.Symbol(name, typename)
         assert v is not None
+        # Advance the counter only once the symbol exists: a rejected
+        # request must not change the names of later fresh symbols
+        self._fresh_guess = count + 1
         return v
 
     def get_symbol(self, name: str) -> FNode:
